@@ -197,6 +197,8 @@ func parseViaParam(viaParam string) (*ViaParam, error) {
 
 	for i, param := range t {
 		if i != 0 {
+			// blanks may surround the ';' and the ',' that delimit a parameter
+			param = strings.TrimSpace(param)
 			pos := strings.IndexByte(param, '=')
 			if pos == -1 {
 				via.Params = append(via.Params, KeyValue{Key: param, Value: ""})
